@@ -676,6 +676,21 @@ def r10(ctx, facts):
             r.instance("recreated-only-if-different-object", ok, "a node is recorded as re-created where Arc::ptr_eq(old, new) is not known to be false", x.span)
 
 
+def r11(ctx, facts):
+    r = ctx.rule("R11", "every tablet learnt from the server goes through the overlap removal of its table, whatever its replicas look like (a later update that overlaps older tablets always evicts them)", floor=1)
+    from ..util import dj_of
+    b = facts.one(r"^scylla::routing::locator::tablets::TabletsInfo::add_tablet$")
+    inner = [c for c in b.calls_to("TableTablets::add_tablet")]
+    if not inner:
+        raise AnchorLost("TabletsInfo::add_tablet does not hand the tablet to TableTablets::add_tablet")
+    dj = dj_of(b, facts)
+    reach = dj.feasible_reach(0, removed_nodes=[c.bb for c in inner])
+    bad = [e for e in b.exits if e in reach]
+    r.instance("tablet-always-reaches-its-table", not bad,
+               "TabletsInfo::add_tablet can return without handing the tablet to TableTablets::add_tablet (an early return for some kind of tablet): the older tablets it overlaps are not "
+               "removed and keep answering with stale replicas", b.span)
+
+
 def _places(rv):
     from ..util import _rv_places
     return _rv_places(rv)
@@ -688,7 +703,7 @@ def check(ctx):
         add = r1(ctx, facts)
     except AnchorLost as ex:
         ctx.rule("R1x", "anchors of r1").fail("anchor-lost", str(ex))
-    for fn in ((lambda c, f: r2(c, f, add)) if add else None, r3, r4, r5, r6, r7, r8, r9, r10):
+    for fn in ((lambda c, f: r2(c, f, add)) if add else None, r3, r4, r5, r6, r7, r8, r9, r10, r11):
         if fn is None:
             continue
         try:
